@@ -280,6 +280,18 @@ var roleTable = []roleEntry{
 		sg, ok := rs[0].Underlying().(*types.Signature)
 		return ok && sg.Params().Len() == 0 && sg.Results().Len() == 0
 	}},
+	{"types/manifest", "", "fromCommon", func(p *core.Prog, f *ssa.Function) bool {
+		ps, rs := sigParams(f), sigResults(f)
+		return unexported(f) && len(ps) == 1 && core.IsModNamed(ps[0].Type(), "types/manifest", "common") && len(rs) == 2 && core.IsModNamed(rs[0], "types/manifest", "Manifest")
+	}},
+	{"types/manifest", "", "fromOrig", func(p *core.Prog, f *ssa.Function) bool {
+		ps, rs := sigParams(f), sigResults(f)
+		return unexported(f) && len(ps) == 2 && core.IsModNamed(ps[0].Type(), "types/manifest", "common") && len(rs) == 2 && core.IsModNamed(rs[0], "types/manifest", "Manifest")
+	}},
+	{"types/manifest", "", "verifyMT", func(p *core.Prog, f *ssa.Function) bool {
+		ps, rs := sigParams(f), sigResults(f)
+		return unexported(f) && len(ps) == 2 && isStringType(ps[0].Type()) && isStringType(ps[1].Type()) && len(rs) == 1 && isErrType(rs[0])
+	}},
 	{".", "tarWriteData", "tarWriteHeader", func(p *core.Prog, f *ssa.Function) bool {
 		return callsWhere(f, extMethod("archive/tar", "Writer", "WriteHeader"))
 	}},
@@ -351,6 +363,18 @@ var roleTable = []roleEntry{
 	{"cmd/regbot", "rootOpts", "process", func(p *core.Prog, f *ssa.Function) bool {
 		return unexported(f) && takes(f, "cmd/regbot", "ConfigScript")
 	}},
+}
+
+func init() {
+	// the re-serialiser of each manifest type: an unexported method without parameters that returns an
+	// error and marshals the manifest
+	for _, typ := range []string{"docker2Manifest", "docker2ManifestList", "oci1Manifest", "oci1Index", "oci1Artifact"} {
+		roleTable = append(roleTable, roleEntry{"types/manifest", typ, "updateDesc", func(p *core.Prog, f *ssa.Function) bool {
+			rs := sigResults(f)
+			return unexported(f) && len(sigParams(f)) == 0 && len(rs) == 1 && isErrType(rs[0]) &&
+				callsWhere(f, func(g *types.Func) bool { return core.IsFunc(g, "encoding/json", "Marshal") })
+		}})
+	}
 }
 
 // cobraRunE: the functions stored into the RunE (or Run) field of a cobra.Command literal of package
